@@ -392,3 +392,28 @@ Definition env_separate (e : env) : bool :=
                      | SObject props | SOneof props => props_separate_b e props
                      | SEnum _ _ => true
                      end) e.
+
+(* ------------------------------------------------------------ schema condition of the member-reordering
+   theorem (proofs/CodecDecReorder.v: props_commute), as a computable check: any two properties of
+   an object have proto paths that part into different fields, neither of which is a oneof sibling of
+   the other where its path ends *)
+Definition path_support (path sibs : list N) : list N :=
+  match path with
+  | [] => []
+  | [n] => n :: sibs
+  | n :: _ => [n]
+  end.
+
+Definition disjoint_b (s t : list N) : bool := forallb (fun n => negb (existsb (N.eqb n) t)) s.
+
+Fixpoint compat_b (pa sa pb sb : list N) : bool :=
+  match pa, pb with
+  | a :: ((_ :: _) as ra), b :: ((_ :: _) as rb) => if a =? b then compat_b ra sa rb sb else true
+  | _ :: _, _ :: _ => disjoint_b (path_support pa sa) (path_support pb sb)
+  | _, _ => false
+  end.
+
+Definition props_commute_b (props : list property) : bool :=
+  forallb (fun p =>
+    forallb (fun q =>
+      bytes_eqb (p_json p) (p_json q) || compat_b (p_path p) (p_siblings p) (p_path q) (p_siblings q)) props) props.
